@@ -296,6 +296,7 @@ class World:
         self.events = []            # compact event log (for digests)
         self.keep_events = False
         self.loop_exceptions = []
+        self.wall_timeout = None
         self.crash_plan = None
         self.start_delays = start_delays or [0.0] * self.m
         self.outcome = None
@@ -351,6 +352,11 @@ class World:
             # happens to run, so not a function of the schedule; whatever it was meant to produce is missed
             # (and judged) as a hang or a missing output, deterministically
             self.stats['pending_task_destroyed'] += 1
+            return
+        if exc is not None and type(exc).__name__ == 'RunTimeout':
+            # the batch driver's wall-clock alarm fired inside a callback: a harness condition, not an exception of
+            # the program; re-raised from run() after this iteration
+            self.wall_timeout = exc
             return
         self.loop_exceptions.append((pid, self.steps, context.get('message'), repr(exc)))
         if os.environ.get('DSIM_TRACEBACK') and exc is not None:
@@ -434,6 +440,8 @@ class World:
         return self.outcome
 
     def step_party(self, p):
+        if self.wall_timeout is not None:
+            raise self.wall_timeout
         net = self.net
         tape = self.tape
         strat = self.strategy
